@@ -138,7 +138,12 @@ func RunCase(c Case) ([]Line, error) {
 		_ = cm1
 		st, err := observeAll()
 		if err != nil {
-			return nil, obsFailure(env, err)
+			// the request that made the state unprojectable is named: the failure belongs to its property too
+			e := obsFailure(env, err)
+			if pe, ok := e.(*ProjectionError); ok {
+				pe.Msg = fmt.Sprintf("after step %d (%s, outcome ok=%v): %s", i+1, op.K, res.OK, pe.Msg)
+			}
+			return nil, e
 		}
 		blk, err := blocksAll()
 		if err != nil {
